@@ -1050,7 +1050,7 @@ func (vfs *OrefaFS) Truncate(name string, size int64) error {
 		return &fs.PathError{Op: op, Path: name, Err: vfs.err.IsADirectory}
 	}
 
-	if size < 0 {
+	if size < 0 || size > maxFileSize {
 		return &fs.PathError{Op: op, Path: name, Err: vfs.err.InvalidArgument}
 	}
 
